@@ -34,6 +34,54 @@ fn check_ring_hash(nside: u32, caps: bool) {
   kani::cover!(caps || y == 1.0, "transition ring");
   kani::cover!(!caps || y < -1.0, "south cap");
 }
+/// Centre of RING cell h in the projection plane by the DEFINITION of the scheme (rings from the
+/// north: 4(r+1) cells for r < nside-1, 4 nside for nside-1 <= r <= 3 nside-1, 4(4 nside-1-r) below;
+/// y = 2 - (r+1)/nside; cells of a ring equally spaced from lon = 0), integers + exact small ratios.
+fn spec_ring_center(nside: u32, h: u64) -> (f64, f64) {
+  let n = nside as u64; let nf = nside as f64;
+  let mut r = 0u64; let mut start = 0u64;
+  // find the ring by walking the ring sizes (nside is small in these harnesses)
+  while r < 4 * n - 1 {
+    let size = if r + 1 < n { 4 * (r + 1) } else if r <= 3 * n - 1 { 4 * n } else { 4 * (4 * n - 1 - r) };
+    if h < start + size { break; }
+    start += size; r += 1;
+  }
+  let j = h - start;
+  let cy = 2.0 - ((r + 1) as f64) / nf;
+  let cx = if r + 1 < n || r > 3 * n - 1 {
+    let t = if r + 1 < n { r + 1 } else { 4 * n - 1 - r };
+    let q = j / t; let k = j % t;
+    (2 * q + 1) as f64 + ((2 * k + 1) as f64 - t as f64) / nf
+  } else {
+    let s = if (r - (n - 1)) % 2 == 0 { 1 } else { 0 };
+    ((2 * j + s) as f64) / nf
+  };
+  (cx, cy)
+}
+/// containment: the centre (by the definition above) of the returned cell is within one half-diagonal
+/// (1/nside, L1 norm, x modulo 8) of the position -- away from the glued gore edges, where the cell
+/// across the seam is as good.
+fn check_ring_contains(nside: u32) {
+  let (xq, y) = choose_point();
+  let inside = !(y > 1.0 || y < -1.0) || { let q = (xq * 0.5) as u8; let apex = (2 * (q & 3) + 1) as f64; (xq - apex).abs() <= 2.0 - y.abs() - 1e-9 };
+  kani::assume(inside);
+  let (h, _dl, _dh) = hash_with_dldh(nside, kani::any(), kani::any());
+  kani::assume(h < n_hash(nside));
+  let (cx, cy) = spec_ring_center(nside, h);
+  let mut ex = xq - cx;
+  if ex > 4.0 { ex -= 8.0; }
+  if ex < -4.0 { ex += 8.0; }
+  let n = nside as f64;
+  assert!((ex.abs() + (y - cy).abs()) * n <= 1.0 + 1e-9, "C11 the ring cell returned for a position contains it (L1 distance to its centre <= 1/nside)");
+}
+/// the crate's own centre agrees with the definition (exactly) for every cell of a small nside
+fn check_ring_center_def(nside: u32) {
+  let h: u64 = kani::any();
+  kani::assume(h < n_hash(nside));
+  let (cx, cy) = center_of_projected_cell(nside, h);
+  let (sx, sy) = spec_ring_center(nside, h);
+  assert!((cx - sx).abs() <= 1e-15 * 8.0 && (cy - sy).abs() <= 1e-15 * 2.0, "C11 ring centre == definition of the RING scheme (ring sizes 4i / 4 nside, equally spaced from lon = 0, y = 2 - (r+1)/nside)");
+}
 fn check_ring_panic(nside: u32) {
   let h: u64 = kani::any();
   kani::assume(h >= n_hash(nside));
@@ -49,3 +97,12 @@ rn! { 1 => ringn_hash_n1, ringn_panic_n1, ringn_caps_n1; 2 => ringn_hash_n2, rin
       5 => ringn_hash_n5, ringn_panic_n5, ringn_caps_n5; 6 => ringn_hash_n6, ringn_panic_n6, ringn_caps_n6; 7 => ringn_hash_n7, ringn_panic_n7, ringn_caps_n7; 8 => ringn_hash_n8, ringn_panic_n8, ringn_caps_n8;
       12 => ringn_hash_n12, ringn_panic_n12, ringn_caps_n12; 100 => ringn_hash_n100, ringn_panic_n100, ringn_caps_n100; 255 => ringn_hash_n255, ringn_panic_n255, ringn_caps_n255; 257 => ringn_hash_n257, ringn_panic_n257, ringn_caps_n257;
       1000 => ringn_hash_n1000, ringn_panic_n1000, ringn_caps_n1000; 1048577 => ringn_hash_n1048577, ringn_panic_n1048577, ringn_caps_n1048577; 536870911 => ringn_hash_n536870911, ringn_panic_n536870911, ringn_caps_n536870911; 536870912 => ringn_hash_n536870912, ringn_panic_n536870912, ringn_caps_n536870912; }
+#[kani::proof] #[kani::stub(crate::proj, ghost_proj)] #[kani::unwind(26)] fn ringn_contains_n1() { check_ring_contains(1) }
+#[kani::proof] #[kani::stub(crate::proj, ghost_proj)] #[kani::unwind(26)] fn ringn_contains_n2() { check_ring_contains(2) }
+#[kani::proof] #[kani::stub(crate::proj, ghost_proj)] #[kani::unwind(26)] fn ringn_contains_n3() { check_ring_contains(3) }
+#[kani::proof] #[kani::stub(crate::proj, ghost_proj)] #[kani::unwind(26)] fn ringn_contains_n5() { check_ring_contains(5) }
+#[kani::proof] #[kani::stub(crate::proj, ghost_proj)] #[kani::unwind(26)] fn ringn_contains_n6() { check_ring_contains(6) }
+#[kani::proof] #[kani::unwind(26)] fn ringn_center_def_n1() { check_ring_center_def(1) }
+#[kani::proof] #[kani::unwind(26)] fn ringn_center_def_n2() { check_ring_center_def(2) }
+#[kani::proof] #[kani::unwind(26)] fn ringn_center_def_n3() { check_ring_center_def(3) }
+#[kani::proof] #[kani::unwind(26)] fn ringn_center_def_n5() { check_ring_center_def(5) }
